@@ -39,25 +39,65 @@ def apply_edits(edits):
     return out
 
 
+REFACTOR_BASE = "93ab368"  # /repo commit the refactoring patches were written against
+
+
+def _git_show(rev, path):
+    import subprocess
+    r = subprocess.run(["git", "-C", REPO_ROOT, "show", f"{rev}:{path}"], capture_output=True, text=True)
+    return r.stdout if r.returncode == 0 else None
+
+
 def overrides_from_patch(patch_path):
-    """Apply a unified diff to a scratch copy of the package (outside /repo and /verif) and return {module: source}."""
+    """{module: source} of the package with the patch applied.  The patch is applied to a scratch copy of the current
+    package (outside /repo and /verif); when /repo has moved on since the patch was written (later fix: commits) it is
+    applied to the files of its base commit instead and the result is merged three-way with the current files."""
     import shutil, subprocess, tempfile
     tmp = tempfile.mkdtemp(prefix="wsverif-seed-")
     try:
-        shutil.copytree(os.path.join(REPO_ROOT, "websocket"), os.path.join(tmp, "websocket"), ignore=shutil.ignore_patterns("tests", "__pycache__"))
+        dst = os.path.join(tmp, "websocket")
+        shutil.copytree(os.path.join(REPO_ROOT, "websocket"), dst, ignore=shutil.ignore_patterns("tests", "__pycache__"))
         r = subprocess.run(["patch", "-p1", "-s", "-F3", "--no-backup-if-mismatch", "-i", patch_path], cwd=tmp, capture_output=True, text=True)
         if r.returncode != 0:
-            raise ValueError(f"patch does not apply: {r.stdout[-200:]} {r.stderr[-200:]}")
+            meta_p = os.path.join(os.path.dirname(patch_path), "meta.json")
+            meta = json.load(open(meta_p)) if os.path.exists(meta_p) else {}
+            base = (meta.get("rebased_base") if patch_path.endswith("patch.rebased.diff") else meta.get("base")) or REFACTOR_BASE
+            shutil.rmtree(dst)
+            os.makedirs(dst)
+            touched = sorted({l[6:].strip().split("\t")[0] for l in open(patch_path) if l.startswith("+++ b/")})
+            for path in touched:
+                src = _git_show(base, path)
+                if src is None:
+                    raise ValueError(f"patch does not apply and {path} is not in base {base}")
+                open(os.path.join(tmp, path), "w", encoding="utf-8").write(src)
+            r = subprocess.run(["patch", "-p1", "-s", "--no-backup-if-mismatch", "-i", patch_path], cwd=tmp, capture_output=True, text=True)
+            if r.returncode != 0:
+                raise ValueError(f"patch does not apply to its base {base}: {r.stdout[-200:]} {r.stderr[-200:]}")
+            out = {}
+            for path in touched:
+                basef = os.path.join(tmp, "base.py")
+                open(basef, "w", encoding="utf-8").write(_git_show(base, path))
+                m = subprocess.run(["git", "merge-file", "-p", os.path.join(tmp, path), basef, os.path.join(REPO_ROOT, path)], capture_output=True, text=True)
+                if m.returncode != 0:
+                    raise ValueError(f"patch conflicts with later changes to {path} ({m.returncode} conflict(s)); a rebased patch is needed")
+                out[os.path.basename(path)[:-3]] = m.stdout
+            return out
         out = {}
-        for fn in os.listdir(os.path.join(tmp, "websocket")):
+        for fn in os.listdir(dst):
             if fn.endswith(".py"):
-                a = open(os.path.join(tmp, "websocket", fn), encoding="utf-8").read()
+                a = open(os.path.join(dst, fn), encoding="utf-8").read()
                 b = open(os.path.join(REPO_ROOT, "websocket", fn), encoding="utf-8").read()
                 if a != b:
                     out[fn[:-3]] = a
         return out
     finally:
         shutil.rmtree(tmp, ignore_errors=True)
+
+
+def _patch_of(d):
+    """The patch to use for a kept change: the rebased one when /repo has moved on under it."""
+    rb = os.path.join(d, "patch.rebased.diff")
+    return rb if os.path.exists(rb) else os.path.join(d, "patch.diff")
 
 
 def seeded_mutants():
@@ -147,7 +187,7 @@ def run_one(m):
 def stacked_mutants():
     """Mutations applied on top of a behaviour-preserving refactoring: the generalised rules must keep their teeth there."""
     base = os.path.join(os.path.dirname(os.path.dirname(os.path.abspath(__file__))), "seeded")
-    r = lambda d: os.path.join(base, d, "patch.diff")
+    r = lambda d: _patch_of(os.path.join(base, d))
     S = []
 
     def add(id_, prop, refactor, edits, rules=None):
@@ -201,7 +241,7 @@ def auto_stacked():
         return out
     muts = _load()
     for d in sorted(os.listdir(base)):
-        pp = os.path.join(base, d, "patch.diff")
+        pp = _patch_of(os.path.join(base, d))
         if not d.startswith("refactor-") or not os.path.exists(pp):
             continue
         try:
